@@ -30,27 +30,51 @@ Definition answers_agree (ix : index) (q : answers) : bool :=
       && perm_eqb member_eqb m1 m2
   end.
 
-Definition obs_agree (model impl : obs) : bool :=
+(* the package-level getters, judged against the model's index of the list the implementation
+   itself last handed to its Cluster *)
+Definition ext_agree (dir : list member) (e : ext) : bool :=
+  let ix := make_members dir in
+  ext_ok (types_of dir) (lst (ix_types ix)) (lst (ix_working ix)) e.
+
+Definition regs_eqb := list_eqb (pair_eqb Z.eqb node_eqb).
+
+(* [dir]: the member list of the implementation's last publication *)
+Definition obs_agree (dir : list member) (model impl : obs) : bool :=
   match model, impl with
   | BNone, BNone => true
-  | BStress x, BStress y => Bool.eqb x y
+  | BFail, BFail => true
+  | BStart regs w ms _, BStart regs' w' ms' q' =>
+      regs_eqb regs regs' && Bool.eqb w w'
+      && perm_eqb member_eqb ms ms' && answers_agree (make_members ms') q'
   | BPub ms _, BPub ms' q' => perm_eqb member_eqb ms ms' && answers_agree (make_members ms') q'
+  | BReg k n, BReg k' n' => Z.eqb k k' && node_eqb n n'
+  | BWatch n h, BWatch n' h' => Z.eqb n n' && Bool.eqb h h'
+  | BDown k c, BDown k' c' => Z.eqb k k' && Bool.eqb c c'
+  | BQuery _, BQuery e' => ext_agree dir e'
+  | BNode n ok, BNode n' ok' => node_eqb n n' && Bool.eqb ok ok'
+  | BStress x, BStress y => Bool.eqb x y
   | _, _ => false
   end.
 
-Fixpoint agree_from (s : pstate) (ops : list op) (bs : list obs) : bool :=
+Definition impl_dir (dir : list member) (impl : obs) : list member :=
+  match impl with
+  | BStart _ _ ms _ | BPub ms _ => ms
+  | _ => dir
+  end.
+
+Fixpoint agree_from (s : pstate) (dir : list member) (ops : list op) (bs : list obs) : bool :=
   match ops, bs with
   | [], [] => true
   | o :: r, b :: br =>
       let '(s1, mb) := step_op s o in
-      obs_agree mb b && agree_from s1 r br
+      obs_agree dir mb b && agree_from s1 (impl_dir dir b) r br
   | _, _ => false
   end.
 
 Definition case := (list op * list obs)%type.
 
-Definition agree (c : case) : bool := agree_from None (fst c) (snd c).
-Definition monitor (c : case) : bool := monitor_from None (fst c) (snd c).
+Definition agree (c : case) : bool := agree_from init_state [] (fst c) (snd c).
+Definition monitor (c : case) : bool := monitor_from (None, []) (fst c) (snd c).
 
 Definition disagreeing (cs : list case) : list Z := failing agree cs.
 Definition monitor_failing (cs : list case) : list Z := failing monitor cs.
